@@ -296,6 +296,8 @@ def gen_cases(chk, mags, fixbits, scale):
 
 def run():
     chk = vlib.Check("C04")
+    import shutil
+    shutil.rmtree(chk.replay_dir, ignore_errors=True)        # replay artefacts of earlier runs of this property
     scale = float(os.environ.get("VERIF_SCALE", "1"))
     with vlib.Scratch("c04") as sc:
         build = vlib.build_repo(sc.sub("build"))
@@ -362,5 +364,4 @@ def run():
 
 
 def replay(path):
-    print(open(path).read()[:6000])
-    return 0
+    return nc.replay(path, "C04")
